@@ -341,6 +341,12 @@ def _r2(model, res, c, m):
         res.ob('R2', site, 'undecided', True, str(e))
         return
     n = 0
+    if not any((' match ' in t or ' fullmatch ' in t or ' search ' in t) for o in outs for (t, alt, s) in o.notes) and \
+            not any(isinstance(x, ast.Attribute) and x.attr in ('match', 'fullmatch', 'search') for x in ast.walk(f)):
+        # a hand-written scanner: its exits are not told apart by a match decision; the constant rows of R9 run it on labels and non-labels
+        res.ob('R2', site, 'decomposition roles', True, 'undecided: extract_label uses no regular expression (see R9)')
+        res.notes.append('C19.R2: extract_label uses no regular expression; decomposition is decided on the constant rows of R9 only')
+        return
     for o in outs:
         if o.imprecise:
             continue
@@ -749,6 +755,16 @@ def _r5(model, res, m):
     def pieces(v):
         if isinstance(v, Atom) and v.op == 'concat':
             return pieces(v.args[0]) + pieces(v.args[1])
+        if isinstance(v, Atom) and v.op == 'format' and len(v.args) == 2 and isinstance(v.args[0], Const) and isinstance(v.args[0].value, str) \
+                and isinstance(v.args[1], ListV) and v.args[0].value.count('%') == v.args[0].value.count('%s') == len(v.args[1].items):
+            # '$%s%s' % (column, row): the fixed text between the place holders, and the values in their order
+            out_ = []
+            for text_, val_ in zip(v.args[0].value.split('%s'), list(v.args[1].items) + [None]):
+                if text_:
+                    out_.append(text_)
+                if val_ is not None:
+                    out_ += pieces(val_)
+            return out_
         if isinstance(v, Const) and isinstance(v.value, str):
             return [v.value] if v.value != '' else []
         if isinstance(v, Atom) and v.op in ('column_index_to_label', 'row_index_to_label') and len(v.args) == 1 and isinstance(v.args[0], Sym):
